@@ -237,6 +237,41 @@ func (c *ctx) checkArchive(b *beh, data []byte, expect []view, step string, supp
 		c.fail(b, "disagree-random", step, "%s", diff)
 		return false
 	}
+	// truncation to a prefix (Directory.Truncate, used to isolate the part of an appx that precedes the signature): the
+	// first n members with a directory of their own - written to one writer or to two, the bytes are the same and a
+	// standard reader sees exactly those members
+	if len(std) >= 2 {
+		for _, n := range []int{1, len(std) - 1} {
+			var one, body, dir bytes.Buffer
+			err := protect(func() error {
+				if e := d.Truncate(n, &one, &one); e != nil {
+					return e
+				}
+				return d.Truncate(n, &body, &dir)
+			})
+			if err != nil {
+				c.fail(b, "truncate", step, "Truncate(%d) of %d members fails: %v", n, len(std), err)
+				return false
+			}
+			two := append(append([]byte(nil), body.Bytes()...), dir.Bytes()...)
+			if !bytes.Equal(one.Bytes(), two) {
+				c.fail(b, "truncate", step, "Truncate(%d) into one writer (%d bytes) differs from contents + directory written separately (%d bytes)", n, one.Len(), len(two))
+				return false
+			}
+			tv, terr := stdView(one.Bytes())
+			if terr != nil || len(tv) != n {
+				c.fail(b, "truncate", step, "Truncate(%d): the standard reader sees %d members (%v)", n, len(tv), terr)
+				return false
+			}
+			for i := range tv {
+				if tv[i].Name != std[i].Name || !bytes.Equal(tv[i].Content, std[i].Content) {
+					c.fail(b, "truncate", step, "Truncate(%d): member %d is %q, the archive's member %d is %q", n, i, tv[i].Name, i, std[i].Name)
+					return false
+				}
+			}
+			c.r.Count("truncations", 1)
+		}
+	}
 	// single-pass stream mode
 	tmp := filepath.Join(c.dir, fmt.Sprintf("z%d.zip", c.n))
 	os.WriteFile(tmp, data, 0600)
